@@ -151,6 +151,8 @@ var c18Stmts = []c18Stmt{
 	{"insert-number-before-key-arg", "INSERT INTO t (a, b, id) VALUES (7, ?, ?), (?, ?, ?)", 5, true, false, map[int]int64{1: 30, 4: 40}},
 	{"insert-mixed-literals-before-key-arg", "INSERT INTO t (a, b, id) VALUES (?, 7, ?), (-3, 4 + 1, ?)", 3, true, false, map[int]int64{1: 30, 2: 40}},
 	{"upsert-number-before-key-arg", "INSERT INTO t (a, b, id) VALUES (7, ?, ?), (?, 8, ?) ON DUPLICATE KEY UPDATE b = ?", 5, true, false, map[int]int64{1: 10, 3: 30}},
+	{"may-reject-upsert-moves-key-other-case", "INSERT INTO t (id, a, b) VALUES (10, ?, ?) ON DUPLICATE KEY UPDATE ID = ID + 5", 2, true, false, nil},
+	{"may-reject-upsert-moves-key", "INSERT INTO t (id, a, b) VALUES (10, ?, ?) ON DUPLICATE KEY UPDATE id = id + 5", 2, true, false, nil},
 	{"upsert-new-row", "INSERT INTO t (id, a, b) VALUES (?, ?, ?) ON DUPLICATE KEY UPDATE a = ?", 4, true, false, map[int]int64{0: 30}},
 	{"upsert-existing-row", "INSERT INTO t (id, a, b) VALUES (?, ?, ?) ON DUPLICATE KEY UPDATE a = ?", 4, true, false, map[int]int64{0: 10}},
 	{"upsert-mixed-two-rows", "INSERT INTO t (id, a, b) VALUES (?, ?, ?), (?, ?, ?) ON DUPLICATE KEY UPDATE a = ?", 7, true, false, map[int]int64{0: 10, 3: 30}},
@@ -194,6 +196,19 @@ var c18Stmts = []c18Stmt{
 	{"null-insert-null-before-key-arg", "INSERT INTO t (a, b, id) VALUES (?, NULL, ?), (?, ?, ?)", 5, true, false, map[int]int64{1: 30, 4: 40}},
 	{"null-upsert-set-null", "INSERT INTO t (id, a, b) VALUES (?, ?, ?) ON DUPLICATE KEY UPDATE b = NULL", 3, true, false, map[int]int64{0: 10}},
 	{"delete-no-where", "DELETE FROM t", 0, true, false, nil},
+}
+
+// c02SameRowsLite: same rows in the same slots
+func c02SameRowsLite(a, b []aRow) bool {
+	if len(a) != len(b) {
+		return false
+	}
+	for i := range a {
+		if a[i].present != b[i].present || (a[i].present && !aSameRow(a[i], b[i])) {
+			return false
+		}
+	}
+	return true
 }
 
 func c18AutoKey(name string) bool { return strings.HasPrefix(name, "insert-auto-") }
@@ -601,6 +616,10 @@ func VerifC16InGtx() {
 		twin.rows = append(twin.rows, r.clone())
 	}
 	args := c18Args(st)
+	pre := make([]aRow, len(w.d.rows))
+	for i, r := range w.d.rows {
+		pre[i] = r.clone()
+	}
 	plainRes, plainErr := (&aConn{twin}).ExecContext(context.Background(), st.query, args)
 
 	tx, err := w.c.BeginTx(w.ctx, driver.TxOptions{})
@@ -618,6 +637,11 @@ func VerifC16InGtx() {
 	vrt.Reach("gtx/" + st.name)
 	vrt.Assert(!panicked, "gtx/no-panic/"+st.name)
 	if panicked || w.d.bad != "" || twin.bad != "" {
+		return
+	}
+	if strings.HasPrefix(st.name, "may-reject-") && err != nil && plainErr == nil && c02SameRowsLite(w.d.rows, pre) {
+		// a refusal C18 sanctions (the statement would move a primary key): nothing was written
+		vrt.Reach("gtx/sanctioned-refusal")
 		return
 	}
 	vrt.Assert((err != nil) == (plainErr != nil), "gtx/fails-iff-the-plain-driver-fails/"+st.name)
